@@ -70,12 +70,15 @@ CLAIMED.update({
     "C02": sim("Theorem (Coq, Props/C02.v, by induction over every trace the protocol model admits, any number of instances and steps): in the environment the "
                "property names - every store call in flight younger than H/2 and answered without transport fault, 0 < H and 3H <= the bucket's maximum age, a message "
                "ages out only when that old, nobody else writes, no health checker, no priority takeover - at every position at most one instance claims a key and "
-               "every claim is backed by the live record with the claimant's identity and current token (monitor clauses 201/202). That the record does not age out "
-               "under its holder is DERIVED (timing invariant over the refresh clock; urgency rules 2070/2072/2073 of the model, each validated on every real trace). "
-               "PARTIAL: two hypotheses remain in the environment predicate (Sim/EnvT.v): no Delete takes effect on a key under a holder (the recorded residual of D5), "
-               "and a refresh attempt of a claiming instance is answered with success (true of the rules, derivation not done: DESIGN 12.3). The same theorem with "
-               "'no expiry under a holder' as a hypothesis instead of the timing (Sim/Env.v) and the earlier component theorems are kept. Both environment predicates "
-               "are executable: the oracle reports on how many real traces each holds (non-vacuity), and a recorded trace of the real library satisfies them (theorem). "
+               "every claim is backed by the live record with the claimant's identity and current token (monitor clauses 201/202). "
+               "That the record does not age out under its holder, and that every refresh attempt of a claiming instance succeeds, are DERIVED (Proofs/SimLeaseT.v: timing "
+               "invariant over the refresh clock; Proofs/SimLeaseC.v: the attempt in flight goes against the key's latest revision, attempts of a term are sequential, "
+               "left-over attempts of earlier terms expect an older revision), from urgency and ordering rules of the model (2070, 2072-2076) each validated on every real "
+               "trace. PARTIAL in one respect: 'no Delete takes effect on a key under a holder' stays a hypothesis of the environment predicate (Sim/EnvT.v envC_okb) - it is "
+               "the recorded residual of D5 - and instances with a health checker are outside the environment. The intermediate theorems (refreshes assumed to succeed; no "
+               "expiry under a holder assumed) and the component theorems are kept. The environment predicates are executable: the oracle reports on how many real traces "
+               "each holds and a check fails if a real trace contradicts a theorem or one of the implications between the environments; a recorded trace of the real library "
+               "satisfies them (theorem). "
                "The monitor evaluates the full statement at every flag/record change of every fault-free simulated trace.", "5.2, 11 and 12", TECH, category="proof"),
     "C03": sim("Theorems: for all schedules obeying the ticker rule of the heartbeat loop and the regenerated per-attempt time-out, the third consecutive failure completes "
                "within 3H+3T of the start of the last successful refresh and the next attempt after a record change completes within H+2T; the regenerated time-out "
